@@ -60,7 +60,7 @@ struct NodeWorld : World {
     static int64_t fbits(float f) { uint32_t u; memcpy(&u, &f, 4); return u; }
     void gen(const std::string &prop, Rng &kr, Rng &pr, Knobs &k, Plan &p) override {
         auto &L = app::leaves(); k.assign(1, kr.chance(0.5));
-        int n = 1 + (int)pr.below(50); bool undo_heavy = prop == "C15" ? pr.chance(0.8) : pr.chance(0.3);
+        int n = 1 + (int)pr.below(g_tier ? 120 : 50); bool undo_heavy = prop == "C15" ? pr.chance(0.8) : pr.chance(0.3);
         // a run concentrates on a few leaves so that histories on one parameter build up
         std::vector<int> focus; int nf = 1 + (int)pr.below(6); for (int i = 0; i < nf; i++) focus.push_back((int)pr.below(L.size()));
         for (int i = 0; i < n; i++) {
